@@ -2,6 +2,7 @@ use super::TargetEnvState;
 use crate::domain::TargetMetadata;
 use crate::work_dir;
 use anyhow::{Context, Result};
+use bincode::Options;
 use async_std::fs;
 use async_std::{path::PathBuf, task};
 
@@ -24,7 +25,16 @@ pub async fn read_saved_target_env_state(target: &TargetMetadata) -> Option<Targ
             let file = std::fs::File::open(&file_path).with_context(|| {
                 format!("Failed to open checksums file {}", &file_path.display())
             })?;
-            bincode::deserialize_from(file)
+            // Bound the decoding by the file size: a corrupted length prefix must not drive allocations.
+            let file_len = file
+                .metadata()
+                .with_context(|| format!("Failed to stat checksums file {}", &file_path.display()))?
+                .len();
+            bincode::DefaultOptions::new()
+                .with_fixint_encoding()
+                .allow_trailing_bytes()
+                .with_limit(file_len)
+                .deserialize_from(file)
                 .with_context(|| format!("Failed to deserialize checksums for {}", target_id))
         })
         .await
